@@ -30,6 +30,10 @@ def plan(tier):
         pl += [(PG.failing("bad_arg", 1), 2, PT), (PG.many_unsendable(4, 1), 2, dict(kinds=("P",))),
                (PG.feeder_vs_break(2), 2, dict(kinds=("P",))),
                (PG.mixed_failures(["bad_arg", "raise", "ok"], 2), 2, dict(kinds=("P",)))]
+    # source-line granularity (one preemption at any line of loky run by a parent thread)
+    pl += simcheck.line_plan([PG.feeder_vs_break(2), PG.resubmit_from_callback("bad_arg", 1)])
+    if tier == "thorough":
+        pl += simcheck.line_plan([PG.failing(k, 1) for k in KINDS] + [PG.many_unsendable(4, 1), PG.callback_raises(1), PG.shutdown_late_error(1)])
     return pl
 
 
